@@ -4,6 +4,13 @@ open Lean Polar
 /-- all operations of the line protocol; builders append `++ Polar.yourOps` on their own line -/
 def allOps : List (String × (Json → D Json)) :=
   Polar.coreOps
+  ++ Polar.latticeOps
+  ++ Polar.linAlgOps
+  ++ Polar.bnOps
+  ++ Polar.distOps
+  ++ Polar.statsOps
+  ++ Polar.simOps
+  ++ Polar.trigOps
 
 def dispatch (j : Json) : Json :=
   match jField j "op" >>= jStr with
